@@ -17,6 +17,12 @@ package transport
 // Side 0 examines the server's view of the client address (the client roams), side 1 the client's view of the server
 // address (the server socket moves).
 //
+// Reflection: the adversary also captures what the endpoint under test ITSELF sends and delivers such a datagram back to
+// that same endpoint (from a third address, or from the peer's address). Its counter is the endpoint's send counter, so
+// it is fresh in the endpoint's receive window whenever the endpoint has sent more than it has received (drawn: extra
+// writes of the endpoint first) and already seen otherwise (drawn: extra genuine packets of the peer first). Only packets
+// of the peer authenticate at the endpoint: the address must not move and nothing reaches the application.
+//
 // Slow application: the endpoint under test is configured with a drawn receive queue length (the package default or
 // 1..5 packets: ServerConfig.MaxBufferedPacketsPerConnection / ClientConfig.MaxBufferedPackets) and its application
 // stops and resumes reading at drawn steps. While it is not reading, genuine packets fill the queue and further ones
@@ -53,9 +59,10 @@ const (
 	c15Stale          // third address: genuine, never delivered packet released after it fell below the replay window
 	c15Trunc          // third address: truncated copy of a genuine packet
 	c15Blocked        // the peer roams while a write of the endpoint is blocked in the socket and further writes are queued behind it
+	c15Reflect        // third address or the peer's address: a datagram the endpoint under test ITSELF sent is delivered back to it
 )
 
-var c15KindNames = []string{"genuine", "roam", "move", "forged", "flip", "replay", "stale", "truncated", "roam-while-write-blocked"}
+var c15KindNames = []string{"genuine", "roam", "move", "forged", "flip", "replay", "stale", "truncated", "roam-while-write-blocked", "reflection"}
 var c15Regions = []string{"type", "reserved", "session-id", "counter", "body", "tag"}
 
 // replay window of the transport ("receive window of 448", transport/replay.go): a packet more than 448 counters behind
@@ -68,7 +75,7 @@ type c15Step struct {
 	Seed    uint64 `json:"seed,omitempty"`   // payload / forged bytes (vlib.Fill)
 	IP      int    `json:"ip,omitempty"`     // roam/move: 0 keep the IP, i>0: c15IPs[i-1]
 	Port    int    `json:"port,omitempty"`   // roam/move: 0 keep the port, else the new port
-	From    int    `json:"from,omitempty"`   // adversary's source address: 0 vEvilAddr, 1 an address the peer used earlier, 2 the peer's IP with another port, 3 the peer's port on another IP, 4 drawn (AdvIP, AdvPort)
+	From    int    `json:"from,omitempty"`   // adversary's source address: 0 vEvilAddr, 1 an address the peer used earlier, 2 the peer's IP with another port, 3 the peer's port on another IP, 4 drawn (AdvIP, AdvPort); reflection only: 5 the peer's current address
 	AdvIP   int    `json:"aip,omitempty"`    // index into c15IPs
 	AdvPort int    `json:"aport,omitempty"`  // 0: the peer's port + 1
 	Fresh   bool   `json:"fresh,omitempty"`  // flip/truncated: alter a packet the endpoint has never seen (the original is dropped on the wire) instead of an already delivered one
@@ -84,6 +91,7 @@ type c15Step struct {
 	App     int    `json:"app,omitempty"`    // before this step the endpoint's application 1: stops reading, 2: resumes reading (0: no change)
 	Extra   int    `json:"extra,omitempty"`  // genuine/roam/move: the peer first sends this many more genuine packets from its current (old) address
 	Queued  int    `json:"queued,omitempty"` // roam-while-write-blocked: number of concurrent writers queued behind the write that is blocked in the socket (1..4)
+	Ahead   int    `json:"ahead,omitempty"`  // reflection: the endpoint under test first writes this many more messages (so that it has sent more than it has received and its newest counters are unseen in its own receive window)
 }
 
 type c15Case struct {
@@ -239,6 +247,12 @@ type c15Scn struct {
 	blocked bool // a write of the endpoint is blocked in the socket, others wait for the handle's write mutex: synctest.Wait cannot be used
 	skip    int  // wire-log mark: datagrams before it have been judged by the step itself
 
+	// reflection steps
+	burst   int             // messages the endpoint wrote during the step (in addition to the one written after every step)
+	seen    map[uint64]bool // counters of the genuine packets delivered to the endpoint (model of its receive window)
+	maxSeen uint64
+	anySeen bool
+
 	setupErr string
 	changes  int // genuine address changes
 	advs     int // adversarial datagrams from a third address
@@ -297,6 +311,8 @@ func (s *c15Scn) genuine(st c15Step) bool {
 	}
 	s.delivered = append(s.delivered, d.Data)
 	s.nextCtr = c15Ctr(d.Data) + 1
+	s.seen[c15Ctr(d.Data)] = true
+	s.maxSeen, s.anySeen = max(s.maxSeen, c15Ctr(d.Data)), true
 	if !c15Same(s.addr, d.Src) {
 		s.changes++
 	}
@@ -710,6 +726,9 @@ func (s *c15Scn) step(st c15Step) (class string, from *net.UDPAddr, ok bool) {
 		}
 		class = "flip:" + c15Regions[region]
 		s.label("adv:flip:%s:of-%s-packet", c15Regions[region], map[bool]string{true: "undelivered", false: "delivered"}[fresh])
+		if fresh && len(data) == 48 {
+			s.label("adv:flip:of-undelivered-empty-message")
+		}
 		if pos == 0 && data[0] == byte(MessageTypeControl) {
 			s.label("adv:flip:type:transport->control")
 		} else if pos == 0 && data[0] <= byte(MessageTypeServerResponseHidden) && MessageType(data[0]).IsHandshakeType() {
@@ -774,11 +793,69 @@ func (s *c15Scn) step(st c15Step) (class string, from *net.UDPAddr, ok bool) {
 			class = "truncated:48-or-more"
 		}
 		s.label("adv:%s:of-%s-packet", class, map[bool]string{true: "undelivered", false: "delivered"}[fresh])
+	case c15Reflect:
+		// REFLECTION: a datagram that the endpoint under test itself sent (captured off the wire by the adversary) is
+		// delivered back to that same endpoint. It is authentic traffic of the session - but of the OTHER direction: by
+		// the statement only a packet that "authenticates under the session keys and passes the replay filter" AT THE
+		// RECEIVER counts, and an endpoint's own packets must not authenticate at itself. The counter of the reflected
+		// datagram is the endpoint's SEND counter; whether it is fresh in the endpoint's RECEIVE window depends on the
+		// history: st.Ahead extra writes of the endpoint put it ahead of everything received, st.Extra extra genuine
+		// packets of the peer put it behind.
+		if !s.extra(st) {
+			return "", nil, false
+		}
+		own := func() (o [][]byte) {
+			for _, d := range s.wire.since(0) {
+				if c15Same(d.Src, s.eut) && s.isSession(d.Data) && len(d.Data) >= 48 {
+					o = append(o, d.Data)
+				}
+			}
+			return o
+		}
+		n := st.Ahead
+		if n == 0 && len(own()) == 0 {
+			n = 1 // nothing to reflect yet
+		}
+		for i := 0; i < n; i++ {
+			if err := s.eutWrite(vlib.Fill(st.Seed^uint64(0xa0+i), 1+(st.Len+i)%11)); err != nil {
+				s.v.Failf("C15:"+s.side+":endpoint-write-fails-after:reflection-burst", "the endpoint's WriteMsg failed: %v", err)
+				return "", nil, false
+			}
+			s.burst++
+			synctest.Wait() // the peer's application takes the message before the next one
+		}
+		o := own()
+		if len(o) == 0 {
+			s.setupErr = "harness: no session datagram of the endpoint under test on the wire"
+			return "", nil, false
+		}
+		p := st.Pick
+		if p < 0 {
+			p = -p
+		}
+		data = append([]byte(nil), o[len(o)-1-p%len(o)]...)
+		class = "reflection"
+		switch ctr := c15Ctr(data); {
+		case !s.anySeen || ctr > s.maxSeen:
+			s.label("adv:reflection:counter-ahead-of-everything-the-endpoint-received")
+		case !s.seen[ctr] && s.maxSeen-ctr < c15Window:
+			s.label("adv:reflection:counter-unseen-inside-the-endpoint's-receive-window")
+		default:
+			s.label("adv:reflection:counter-already-seen-or-stale-at-the-endpoint")
+		}
+		if p%len(o) == 0 {
+			s.label("adv:reflection:of-the-endpoint's-newest-datagram")
+		}
 	default:
 		s.setupErr = fmt.Sprintf("harness: unknown step kind %d", st.Kind)
 		return "", nil, false
 	}
 	from, fcls := s.third(st)
+	if st.Kind == c15Reflect && st.From == 5 {
+		// from the peer's own address: a redirect can only be seen if the peer moved silently before; the delivery
+		// clause (nothing adversarial reaches the application) applies in any case
+		from, fcls = &net.UDPAddr{IP: s.cur.IP, Port: s.cur.Port}, "peer-current-address"
+	}
 	if !s.rdIn && s.q >= s.qcap {
 		s.label("adversarial-datagram-arrives-at-full-queue")
 	}
@@ -800,7 +877,7 @@ func (s *c15Scn) isSession(b []byte) bool {
 
 func c15Scenario(c c15Case, v *vlib.Verdict, s *c15Scn) {
 	w := vGetWorld()
-	s.c, s.v, s.labels = c, v, map[string]bool{}
+	s.c, s.v, s.labels, s.seen = c, v, map[string]bool{}, map[uint64]bool{}
 	s.side = c15Sides[c.Side&1]
 	scfg, ccfg := w.ServerConfig(c.Hidden), w.ClientConfig(c.Hidden, false)
 	if c.Side == 0 {
@@ -850,6 +927,7 @@ func c15Scenario(c c15Case, v *vlib.Verdict, s *c15Scn) {
 
 	for i, st := range c.Steps {
 		s.app(st)
+		s.burst = 0
 		m := s.wire.mark()
 		addrBefore := s.addr
 		class, from, ok := s.step(st)
@@ -891,7 +969,11 @@ func c15Scenario(c c15Case, v *vlib.Verdict, s *c15Scn) {
 			}
 			return
 		}
-		if emitted != 1 {
+		if s.burst > 0 && emitted != 1+s.burst {
+			v.Failf("C15:"+s.side+":session-datagrams-per-write:after-"+ctx, "step %d (%s): %d WriteMsg calls returned nil and the endpoint put %d session datagrams on the wire", i, ctx, 1+s.burst, emitted)
+			return
+		}
+		if s.burst == 0 && emitted != 1 {
 			v.Failf("C15:"+s.side+":session-datagrams-per-write:"+fmt.Sprint(min(emitted, 2)), "step %d (%s): WriteMsg returned nil and the endpoint put %d session datagrams on the wire", i, ctx, emitted)
 			return
 		}
@@ -905,7 +987,7 @@ func c15Scenario(c c15Case, v *vlib.Verdict, s *c15Scn) {
 			return
 		}
 		if c15Same(s.addr, s.cur) {
-			s.wantPeer++
+			s.wantPeer += 1 + s.burst
 		} else {
 			s.label("endpoint-writes-to-vacated-address(model-agrees)")
 		}
@@ -931,11 +1013,11 @@ func c15Run(t *testing.T) func(c c15Case, v *vlib.Verdict) {
 			return
 		}
 		for _, st := range c.Steps {
-			if st.App < 0 || st.App > 2 || st.Extra < 0 || st.Extra > 16 || (st.Extra > 0 && st.Kind > c15Move) {
+			if st.App < 0 || st.App > 2 || st.Extra < 0 || st.Extra > 16 || (st.Extra > 0 && st.Kind > c15Move && st.Kind != c15Reflect) || st.Ahead < 0 || st.Ahead > 64 || (st.Ahead > 0 && st.Kind != c15Reflect) || st.From < 0 || st.From > 5 {
 				v.Discard = true
 				return
 			}
-			if st.Kind < 0 || st.Kind > c15Blocked || st.Queued < 0 || st.Queued > 4 || st.Len < 0 || st.Len > 4096 || ((st.Kind != c15Forged && st.Kind != c15Move && st.Kind != c15Genuine && st.Kind != c15Roam && st.Kind != c15Blocked) && st.Len < 1) {
+			if st.Kind < 0 || st.Kind > c15Reflect || st.Queued < 0 || st.Queued > 4 || st.Len < 0 || st.Len > 4096 || ((st.Kind != c15Forged && st.Kind != c15Move && st.Kind != c15Genuine && st.Kind != c15Roam && st.Kind != c15Blocked && st.Kind != c15Reflect && st.Kind != c15Flip) && st.Len < 1) {
 				v.Discard = true
 				return
 			}
@@ -1022,6 +1104,7 @@ func c15GenStep(t *rapid.T) c15Step {
 		c15Stale,
 		c15Trunc, c15Trunc,
 		c15Blocked, c15Blocked,
+		c15Reflect, c15Reflect, c15Reflect,
 	}).Draw(t, "kind")
 	st := c15Step{Kind: kind, Seed: rapid.Uint64().Draw(t, "seed")}
 	port := func(label string) int {
@@ -1033,7 +1116,9 @@ func c15GenStep(t *rapid.T) c15Step {
 	if kind != c15Move {
 		st.Len = rapid.IntRange(1, 120).Draw(t, "len")
 		// a message may be empty: its datagram is header, counter and tag only, and is as genuine and fresh as any
-		if (kind == c15Genuine || kind == c15Roam || kind == c15Blocked) && rapid.IntRange(0, 5).Draw(t, "empty") == 0 {
+		// (flip: the undelivered original that is altered may be an empty message too - its datagram has no body, every
+		// flip outside the header lands in the tag)
+		if (kind == c15Genuine || kind == c15Roam || kind == c15Blocked || kind == c15Flip) && rapid.IntRange(0, 5).Draw(t, "empty") == 0 {
 			st.Len = 0
 		}
 	}
@@ -1062,6 +1147,9 @@ func c15GenStep(t *rapid.T) c15Step {
 		return st
 	}
 	st.From = rapid.SampledFrom([]int{0, 0, 0, 1, 1, 1, 2, 2, 3, 4, 4}).Draw(t, "from")
+	if kind == c15Reflect && rapid.IntRange(0, 3).Draw(t, "from-peer-address") == 0 {
+		st.From = 5
+	}
 	switch st.From {
 	case 2:
 		if rapid.Bool().Draw(t, "neighbour-port") {
@@ -1104,6 +1192,16 @@ func c15GenStep(t *rapid.T) c15Step {
 		}
 	case c15Replay:
 		st.Pick = pick()
+	case c15Reflect:
+		// most recent datagrams of the endpoint preferred (their counters are the ones most likely to be unseen in
+		// its own receive window); the endpoint gets ahead of the peer (Ahead) or the peer ahead of it (Extra)
+		st.Pick = rapid.SampledFrom([]int{0, 0, 0, 0, 1, 1, 2, 3, pick()}).Draw(t, "own-pick")
+		switch rapid.IntRange(0, 3).Draw(t, "who-is-ahead") {
+		case 0, 1:
+			st.Ahead = rapid.SampledFrom([]int{1, 2, 3, 6, 12, 30}).Draw(t, "ahead")
+		case 2:
+			st.Extra = rapid.SampledFrom([]int{1, 2, 3, 6, 12}).Draw(t, "extra-first")
+		}
 	case c15Stale:
 		st.Burst = c15Window + 1 + rapid.SampledFrom([]int{0, 0, 1, 2, 15, 63, 64, 65}).Draw(t, "beyond")
 	case c15Trunc:
@@ -1222,6 +1320,19 @@ func c15Baseline(t *testing.T) {
 			// (that the blocked write keeps its old destination is allowed, not required: its absence is not a machinery fault)
 			if v.Inconclusive != "" || v.Discard {
 				t.Fatalf("VERIF-MACHINERY C15 baseline (hidden=%v side=%d): script with roams while a write is blocked in the socket: %+v %s labels %v", hidden, side, v.Violations, v.Inconclusive, v.Labels)
+			}
+			// reflection steps: the harness must get through them and must reach histories in which the reflected datagram's
+			// counter is ahead of / behind what the endpoint has received (a violation is left to the search to report)
+			c = c15Case{Hidden: hidden, Side: side}
+			for i, st := range []c15Step{{Kind: c15Reflect}, {Kind: c15Genuine}, {Kind: c15Reflect, Ahead: 3, From: 5}, {Kind: c15Reflect, Extra: 12, Pick: 9, From: 2}, {Kind: c15Genuine}} {
+				st.Len, st.Seed = 2+i, uint64(300+i)
+				c.Steps = append(c.Steps, st)
+			}
+			v = vlib.Verdict{}
+			run(c, &v)
+			if v.Inconclusive != "" || v.Discard || !slices.Contains(v.Labels, "adv:reflection:counter-ahead-of-everything-the-endpoint-received") ||
+				(v.OK() && !slices.Contains(v.Labels, "adv:reflection:counter-already-seen-or-stale-at-the-endpoint")) {
+				t.Fatalf("VERIF-MACHINERY C15 baseline (hidden=%v side=%d): script with reflection steps: %+v %s labels %v", hidden, side, v.Violations, v.Inconclusive, v.Labels)
 			}
 		}
 	}
